@@ -188,7 +188,7 @@ class Runner:
         obs: list[str] = []
         # oracle state of the current connection
         st = {"connected": False, "data": b"", "eof": False, "limit": 0, "done": 0, "failed": None,
-              "accepted": b"", "writer": None}
+              "accepted": b"", "writer": None, "reader": None}
 
         def bad(what: str, **kw) -> None:
             corr.violate(what, {**info, "flavour": ["direct", "tcp", "serial"][flavour], "op_index": len(obs) - 1, **kw})
@@ -223,7 +223,7 @@ class Runner:
                 await drop_pending()
                 if kind != "conn":
                     t, expected_kwargs = make_transport(flavour)
-                    st.update(connected=False, data=b"", eof=False, done=0, failed=None, accepted=b"", writer=None)
+                    st.update(connected=False, data=b"", eof=False, done=0, failed=None, accepted=b"", writer=None, reader=None)
                 if kind == "tnew":
                     obs.append("ok")
                     continue
@@ -245,7 +245,7 @@ class Runner:
                     if o != "ok":
                         bad("connect failed without a fault", got=o)
                     st.update(connected=True, data=b"", eof=False, limit=limit, done=0, failed=None, accepted=b"",
-                              writer=Opening.last_pair[1])
+                              writer=Opening.last_pair[1], reader=Opening.last_pair[0])
                     if t.reader is not Opening.last_pair[0] or t.writer is not Opening.last_pair[1]:
                         bad("connect did not install the opened reader/writer")
                 elif fname in IO_FAULTS and not is_transport_error(o):
@@ -254,21 +254,21 @@ class Runner:
                 if not st["connected"]:
                     obs.append("noconn")
                     continue
-                t.reader.feed_data(op[1])
+                st["reader"].feed_data(op[1])
                 st["data"] += op[1]
                 obs.append("ok")
             elif kind == "eof":
                 if not st["connected"]:
                     obs.append("noconn")
                     continue
-                t.reader.feed_eof()
+                st["reader"].feed_eof()
                 st["eof"] = True
                 obs.append("ok")
             elif kind == "fail":
                 if not st["connected"]:
                     obs.append("noconn")
                     continue
-                t.reader.set_exception(FAULTS[op[1]]("injected"))
+                st["reader"].set_exception(FAULTS[op[1]]("injected"))
                 st["failed"] = op[1]
                 obs.append("ok")
             elif kind == "read":
